@@ -417,3 +417,31 @@ where
         Ok(())
     }
 }
+
+#[cfg(alpenglow_verif)]
+impl<A, D, T> Alpenglow<A, D, T>
+where
+    A: All2All + Send + Sync + 'static,
+    D: Disseminator + Send + Sync + 'static,
+    T: TransactionNetwork + 'static,
+{
+    /// Verification hook: handles a consensus message as the message loop does.
+    pub async fn verif_handle_all2all_message(&self, msg: ConsensusMessage) {
+        self.handle_all2all_message(msg).await;
+    }
+
+    /// Verification hook: handles a shred received from the disseminator as the message loop does.
+    ///
+    /// # Errors
+    ///
+    /// Returns the I/O error of the disseminator, if forwarding fails.
+    pub async fn verif_handle_disseminator_shred(&self, shred: Shred) -> std::io::Result<()> {
+        self.handle_disseminator_shred(shred).await
+    }
+
+    /// Verification hook: the node's blockstore.
+    #[must_use]
+    pub fn verif_blockstore(&self) -> SharedBlockstore {
+        Arc::clone(&self.blockstore)
+    }
+}
